@@ -1,5 +1,6 @@
 PROP = {
-    "groups": ["tunnel", "tunnel-e2e", "tunnel-relay"],
+    "shared_groups": "also runs the neighbouring groups whose code can break this property: relayneg (described under C14); errtell (described under C11)",
+    "groups": ["tunnel", "tunnel-e2e", "tunnel-relay", "relayneg", "errtell"],
     "timeout": 300,
     "rule": "group tunnel (real tunnel code through export_verif_tunnel.go on real 127.0.0.1 sockets, in-process): "
             "getHelloConstant on ids of length 0..17 (digits, arbitrary bytes, ':' and '%') x ports incl. 0, negative and 64-bit extremes; "
